@@ -200,7 +200,7 @@ func VerifC05Tcc() {
 		p.Ptr = &v
 	}
 	var params interface{} = p
-	shape := vrt.Choice("params.shape", 8)
+	shape := vrt.Choice("params.shape", vrt.Param("shapes", 8))
 	switch shape {
 	case 1:
 		params = *p // by value
@@ -264,9 +264,15 @@ func VerifC05Tcc() {
 	for k := 0; k < vrt.Param("deliveries", 2); k++ {
 		tag := []string{"first", "second"}[k]
 		rollback := vrt.Bool(tag + ".rollback")
-		resource := []string{"actionA", "actionB", "nobody"}[vrt.Choice(tag+".resource", 3)]
+		// the second delivery (thorough tier) repeats / crosses the first one: same or other action,
+		// registered or empty data
+		nres, ndata := 3, 4
+		if k > 0 {
+			nres, ndata = 2, 2
+		}
+		resource := []string{"actionA", "actionB", "nobody"}[vrt.Choice(tag+".resource", nres)]
 		var data []byte
-		dataKind := vrt.Choice(tag+".data", 4)
+		dataKind := vrt.Choice(tag+".data", ndata)
 		switch dataKind {
 		case 0:
 			data = reg.ApplicationData // what the coordinator stored at registration
